@@ -4,7 +4,7 @@
 From Coq Require Import String.
 From Coq Require Import ZArith Bool List Lia.
 From GoSecs Require Import Base.GoInt Base.BytesBE Base.GoSlice Gen.Gen2.
-From GoSecs Require Import Secs1.Block Gen.Bridge2Secs1.
+From GoSecs Require Import Secs1.Block Gen.Bridge2Secs1 Gen.Bridge2Secs1Split.
 Import ListNotations.
 Open Scope Z_scope.
 
@@ -33,3 +33,25 @@ Theorem tie_secs1_parseBlock : forall lb rest,
 Proof. exact bridge_parseBlock. Qed.
 Print Assumptions tie_secs1_parseBlock.
 
+
+(** * C17 / C18 — secs1/message.go: splitBody *)
+
+(** [wire.chunkView] (the body of both implementations of [wire.Body.Chunk]): inside the body, no
+    panic, the sub-slice [body[off : off+n]]. *)
+Theorem tie_wire_chunkView : forall body off n,
+  0 <= off -> 0 <= n -> off + n <= go_len body -> go_len body < 2 ^ 62 ->
+  Gen2.wire.chunkView body off n = GOk (Gen2.wire.mk_Chunk (firstn (Z.to_nat n) (skipn (Z.to_nat off) body))).
+Proof. exact chunkView_ok. Qed.
+Print Assumptions tie_wire_chunkView.
+
+(** [splitBody] returns an iterator; its translation is the list of blocks the iterator yields to a
+    consumer that drains it. For EVERY header (function a [uint8], system bytes a [[4]byte]) and
+    EVERY body: no panic, and exactly [split_body]: the two header guards and the size guard
+    ([ErrInvalidHeader] / [ErrMessageTooLarge], no block), otherwise the model's block list - block
+    numbers from 1, the E-bit on the last block only, bodies of 244 bytes except the last, one
+    header-only block for an empty body. *)
+Theorem tie_secs1_splitBody : forall body h,
+  0 <= h_func h < 256 -> length (h_sys h) = 4%nat ->
+  Gen2.secs1.splitBody body (mh_of h) = GOk (split_result_of (split_body body h)).
+Proof. exact bridge_splitBody. Qed.
+Print Assumptions tie_secs1_splitBody.
